@@ -12,7 +12,9 @@ EXPLANATION = (
     'closes before removing; (R4) no storage result is discarded in remove_replica; (R5) the content-hash iterator ranges '
     'over the whole records table of a snapshot taken after a flush and the GC task never maps an error to Continue. (R6) '
     "the API handler doc_drop evaluated: the store actor's drop_replica is reached for the requested document and success "
-    'is reported only if it succeeded. NOT decided: byte-for-byte equality of neighbouring documents (redb trusted).'
+    'is reported only if it succeeded. The protect callback continues only when the list of hashes was received to its '
+    'explicit end marker: a channel that merely closes (the task was aborted with the engine) aborts the collection run. '
+    'NOT decided: byte-for-byte equality of neighbouring documents (redb trusted).'
 )
 ASSUMPTIONS = ["redb tables are identified by their key/value types", "redb range semantics trusted"]
 
